@@ -277,7 +277,7 @@ func judge(s *core.Shard, pc *pcase, rep reporter) {
 		s.Add("pairs_compared", 1)
 		s.Nontrivial(d.YAML, filesKey(pc.Files))
 		if dd := diff.Compare(long.Project, r.Project, diff.Default()); dd != "" {
-			rep.violation(map[string]string{"kind": "spelling-mismatch", "attribute": pc.Position, "spelling": d.Name, "field": diff.PathOf(dd)},
+			rep.violation(map[string]string{"kind": "spelling-mismatch", "attribute": pc.Position, "spelling": d.Name, "field": diff.PathOf(dd), "class": pc.Class},
 				fmt.Sprintf("%s: the %s spelling %q and its long form %q load to different typed values (long vs %s): %s", pc.Position, d.Name, d.Text, pc.Docs[0].Text, d.Name, trim(dd)), files(nil))
 			continue
 		}
